@@ -5,21 +5,6 @@
 // Wire format (comment in frames.rs): MAGIC(4) SESSID(4) ATTR_LEN(2) BODY_LEN(2) ATTR BODY, ATTR = T(1) L(1) V(L)
 //   T=3 host: V = host bytes ++ port(2);  T=1 ipv4: V = ip(4) port(2);  T=2 ipv6: V = ip(16) port(2)
 
-pub enum AddrV { NoAddr, Domain(Seq<u8>, u16), V4(u32, u16), V6(Seq<u8>, u16) }
-
-pub open spec fn ta_view(a: TargetAddress) -> AddrV {
-    match a {
-        TargetAddress::DomainPort(h, p) => AddrV::Domain(string_bytes(h), p),
-        TargetAddress::SocketAddr(SocketAddr::V4(s)) => AddrV::V4(s.ip.bits, s.port),
-        TargetAddress::SocketAddr(SocketAddr::V6(s)) => AddrV::V6(s.ip.octs@, s.port),
-        TargetAddress::Unknown => AddrV::NoAddr,
-    }
-}
-
-pub open spec fn opt_ta_view(a: Option<TargetAddress>) -> AddrV {
-    match a { Some(a) => ta_view(a), None => AddrV::NoAddr }
-}
-
 /// can this address be carried by the attribute encoding (1-byte length covering host ++ port)
 pub open spec fn addr_repr(v: AddrV) -> bool {
     match v {
